@@ -54,7 +54,7 @@ PROP = {
             "index size-1/size/size+1/UINT_MAX, shapes equal/transposed/off-by-one, x at/inside/outside the 1% edge tolerance, "
             "tables of length 0..3, method names +- one character, parameters at/beyond their range, list lengths) plus random "
             "requests around 13 parametrised guard families (incl. guard-violating parameters crossed with random other arguments and Factorial after random valid call histories); every request is non-trivial; distinct = distinct request text",
-    "floors": {"quick": {"cases": 1500, "distinct_nontrivial": 700},
+    "floors": {"quick": {"cases": 2400, "distinct_nontrivial": 4700},
                "thorough": {"cases": 30000, "distinct_nontrivial": 5000, "clauses": {"memcheck:accepted-side-returns": 300, "memcheck:rejected-side-exits-with-diagnostic": 500}}},
     "exhaustive": {"quick": ["the guard catalogue (every entry run in both flavours)"], "thorough": ["the guard catalogue (every entry run in both flavours)"]},
     "technique": "runtime monitoring: one forked child per request under gcc ASan+UBSan, process-outcome oracle (exit status, diagnostic bytes, sanitizer reports); thorough tier: the catalogue again under valgrind memcheck",
